@@ -54,7 +54,7 @@ class HistoryProp(Prop):
         ops = case['ops']
         lockstep = bool(case.get('lockstep_threads'))
         n, robs, iobs, failure, ref = H.run_history(ops, self.ref_steps, skip_undecided=self.skip_undecided, track_fresh=self.track_fresh,
-                                                    impl_world=H.ThreadedImplWorld if lockstep else None)
+                                                    impl_world=H.ThreadedImplWorld if lockstep else H.FileLoadImplWorld if case.get('load_route') == 'file' else None)
         if failure is not None:
             kind, i, op, r, o = failure
             if lockstep:
@@ -71,4 +71,6 @@ class HistoryProp(Prop):
             classes = list(classes) + ['reference-stopped-early(prefix compared)']
         if lockstep:
             classes = list(classes) + ['lockstep-threads(one thread per engine)']
+        if case.get('load_route') == 'file':
+            classes = list(classes) + ['scripts-loaded-through-load_script_from_file']
         return OK(nt, sorted(set(classes)))
